@@ -77,7 +77,7 @@ def run_case(case):
     from bioscrape.simulator import ModelCSimInterface
     import bioscrape.random as brandom
     C = Counter()
-    viol = []
+    viol = util.ViolList()
     sp = case["spec"]
     M = specmod.build_model(sp, "ctor")
     tmp = tempfile.mkdtemp(prefix="c12-", dir="/var/tmp")
